@@ -331,7 +331,12 @@ func (p *Program) parseSpecs(pkg *packages.Package) {
 				}
 				body := strings.TrimSpace(rest[i+1:])
 				src := fmt.Sprintf("forallI(lo, forallI(hi, imp(lo <= hi, %s(lo, hi))))", body)
-				if strings.HasPrefix(body, "up ") {
+				if strings.HasPrefix(body, "upfix ") {
+					// induct name: upfix Body - as "up", with the body's leading quantified variables fixed through the step
+					body = strings.TrimSpace(body[6:])
+					src = fmt.Sprintf("forallI(k, imp(0 <= k, %s(k)))", body)
+					body = "upfix " + body
+				} else if strings.HasPrefix(body, "up ") {
 					// induct name: up Body  - one-parameter body, induction upwards from 0
 					body = strings.TrimSpace(body[3:])
 					src = fmt.Sprintf("forallI(k, imp(0 <= k, %s(k)))", body)
